@@ -73,6 +73,71 @@ def _quiet_worker():
         faulthandler.enable()
 
 
+def forked_call(fn, args, timeout):
+    """Run fn(*args) in a forked child of the (pristine) calling process and return ("ok", result), ("died", code) or
+    ("timeout", None).  Every history of machine A and every replay / minimisation test starts from a process image in
+    which the system under test has never run, so module-level state inside scikit_tt (caches, memoised cores) cannot
+    leak from one run into the next and a replay file is a pure function of its records; a run that hangs inside C code
+    or kills its process costs exactly that run."""
+    import pickle
+    r, w = os.pipe()
+    pid = os.fork()
+    if pid == 0:
+        code = 0
+        try:
+            os.close(r)
+            signal.setitimer(signal.ITIMER_REAL, 0)
+            out = pickle.dumps(fn(*args), protocol=pickle.HIGHEST_PROTOCOL)
+            with os.fdopen(w, "wb") as f:
+                f.write(out)
+        except BaseException:  # noqa
+            code = 17
+            try:
+                import traceback
+                with os.fdopen(w, "wb") as f:
+                    f.write(pickle.dumps({"__child_exception__": traceback.format_exc()[-1500:]}))
+            except Exception:
+                pass
+        finally:
+            os._exit(code)
+    os.close(w)
+    import select
+    chunks = []
+    t_end = time.time() + timeout
+    status = "ok"
+    with os.fdopen(r, "rb") as f:
+        fd = f.fileno()
+        while True:
+            left = t_end - time.time()
+            if left <= 0:
+                status = "timeout"
+                break
+            ready, _, _ = select.select([fd], [], [], min(left, 1.0))
+            if ready:
+                b = os.read(fd, 1 << 20)
+                if not b:
+                    break
+                chunks.append(b)
+    if status == "timeout":
+        try:
+            os.kill(pid, signal.SIGKILL)
+        except OSError:
+            pass
+    _, st = os.waitpid(pid, 0)
+    if status == "timeout":
+        return "timeout", None
+    data = b"".join(chunks)
+    if not data:
+        return "died", st
+    try:
+        out = pickle.loads(data)
+    except Exception:
+        return "died", st
+    if isinstance(out, dict) and "__child_exception__" in out:
+        return "exception", out["__child_exception__"]
+    return "ok", out
+
+
 def machine(prop):
     return importlib.import_module("simtt." + MACHINE_OF[prop])
 
@@ -91,6 +156,7 @@ def _chunk(task, progress=None):
            "raised_ok": 0, "clock_reads": 0, "sim_clock_s": 0.0, "samples": [], "harness_errors": [],
            "pairs": set(), "digest_acc": hashlib.sha256(), "batch": batch, "extra": Counter()}
     faults = (batch == "fault")
+    fork_runs = bool(getattr(m, "FORK_PER_RUN", False))
     for i in range(start, start + count):
         seed = batch_seed(verif_seed, prop, batch, i)
         if progress is not None:
@@ -99,14 +165,27 @@ def _chunk(task, progress=None):
             if _TEST_HOOK.startswith("hang"):
                 time.sleep(3600)
             os._exit(3)
-        signal.setitimer(signal.ITIMER_REAL, RUN_TIMEOUT_S)
+        signal.setitimer(signal.ITIMER_REAL, 0 if fork_runs else RUN_TIMEOUT_S)
         try:
-            r = m.run_one(prop, seed, faults)
-            if i % REEXEC_EVERY == 0:
-                r2 = m.run_one(prop, seed, faults)
-                if r2["digest"] != r["digest"]:
-                    agg["digest_mismatch"] += 1
-                    agg["harness_errors"].append("digest mismatch batch=%s index=%d" % (batch, i))
+            if fork_runs:
+                st, r = forked_call(m.run_one, (prop, seed, faults), RUN_TIMEOUT_S)
+                if st == "timeout":
+                    raise RunTimeout()
+                if st != "ok":
+                    agg["harness_errors"].append("run batch=%s index=%d: child %s: %s" % (batch, i, st, str(r)[-600:]))
+                    continue
+                if i % REEXEC_EVERY == 0:
+                    st2, r2 = forked_call(m.run_one, (prop, seed, faults), RUN_TIMEOUT_S)
+                    if st2 != "ok" or r2["digest"] != r["digest"]:
+                        agg["digest_mismatch"] += 1
+                        agg["harness_errors"].append("digest mismatch batch=%s index=%d" % (batch, i))
+            else:
+                r = m.run_one(prop, seed, faults)
+                if i % REEXEC_EVERY == 0:
+                    r2 = m.run_one(prop, seed, faults)
+                    if r2["digest"] != r["digest"]:
+                        agg["digest_mismatch"] += 1
+                        agg["harness_errors"].append("digest mismatch batch=%s index=%d" % (batch, i))
         except RunTimeout:
             agg["timeouts"] += 1
             agg["harness_errors"].append("timeout batch=%s index=%d" % (batch, i))
@@ -154,6 +233,7 @@ RUN_HARD_S = int(os.environ.get("SIMTT_RUN_HARD_S", "150"))
 
 def _worker_main(conn):
     _quiet_worker()
+    env.preload_sut()
     try:
         while True:
             task = conn.recv()
@@ -276,9 +356,17 @@ def known_match(known, prop, signature):
     return None
 
 
+def replay_fresh(m, prop, records):
+    """Replay in a forked child of this process (which never ran the system under test)."""
+    st, r = forked_call(m.replay_records, (prop, records), RUN_TIMEOUT_S)
+    if st != "ok":
+        return {"digest": None, "viol": None, "fired": {}, "trouble": "%s %s" % (st, str(r)[-300:])}
+    return r
+
+
 def _replay_test(m, prop, signature):
     def test(records):
-        r = m.replay_records(prop, records)
+        r = replay_fresh(m, prop, records)
         return r["viol"] is not None and r["viol"]["property"] == prop and r["viol"]["signature"] == signature
     return test
 
@@ -325,7 +413,7 @@ def regression_corpus(prop, m, out):
     for path in files:
         with open(path) as f:
             body = json.load(f)
-        r = m.replay_records(prop, body["records"])
+        r = replay_fresh(m, prop, body["records"])
         if r["viol"] is not None and r["viol"]["property"] == prop:
             bad.append((path, r["viol"]))
     out["regression_replays"] = len(files)
@@ -342,6 +430,7 @@ def run_check(prop, tier, verif_seed, workers=None, runs_override=None, wall_ove
     if wall_override is not None:
         tcfg["wall"] = wall_override
     workers = workers or min(16, os.cpu_count() or 1)
+    env.preload_sut()
     print("CHECK property=%s tier=%s VERIF_SEED=%d machine=%s workers=%d repo=%s" % (
         prop, tier, verif_seed, m.NAME, workers, env.REPO))
     sys.stdout.flush()
@@ -424,7 +513,10 @@ def run_check(prop, tier, verif_seed, workers=None, runs_override=None, wall_ove
             total["harness_errors"].append("violation %s of run %s/%d does not reproduce in-process" % (sig, v["batch"], v["index"]))
             continue
         recs, ntests = mini.minimise(v["records"], test, m.simplifier, max_tests=400 if tier == "quick" else 1500)
-        rr = m.replay_records(prop, recs)
+        rr = replay_fresh(m, prop, recs)
+        if rr["viol"] is None:
+            total["harness_errors"].append("minimised replay of %s does not reproduce (%s)" % (sig, rr.get("trouble")))
+            continue
         path = write_replay(prop, m, v, recs, rr["viol"], rr["digest"], len(v["records"]), ntests)
         fr = fresh_replay(path)
         rel = os.path.relpath(path, env.VERIF) if out_root() == env.VERIF else path
